@@ -13,6 +13,8 @@ import (
 	"sort"
 	"strings"
 	"time"
+
+	"golang.org/x/tools/go/ssa"
 )
 
 type ReplayIn struct {
@@ -31,7 +33,30 @@ type ReplayOut struct {
 // dispatchSource generates the harness dispatcher from the SSA package.
 func dispatchSource(p *Program) string {
 	var sb strings.Builder
-	sb.WriteString("//go:build verif\n\npackage sipsp\n\nfunc vArgAt(a []int, i int) int {\n\tif i < len(a) {\n\t\treturn a[i]\n\t}\n\treturn 0\n}\n\n")
+	sb.WriteString("//go:build verif\n\npackage sipsp\n\nimport \"fmt\"\n\n")
+	// digest of every package-level variable of the library (isolation check)
+	var gl []string
+	for n, m := range p.Pkg.Members {
+		g, ok := m.(*ssa.Global)
+		if !ok || strings.Contains(n, "$") || n == "Log" {
+			continue
+		}
+		pos := p.Prog.Fset.Position(g.Pos())
+		if strings.Contains(pos.Filename, "zz_verif_") || strings.HasSuffix(pos.Filename, "_test.go") || !pos.IsValid() {
+			continue
+		}
+		gl = append(gl, n)
+	}
+	sort.Strings(gl)
+	sb.WriteString("func vGlobalsDigest() string {\n\treturn fmt.Sprint(")
+	for i, n := range gl {
+		if i > 0 {
+			sb.WriteString(", ")
+		}
+		sb.WriteString(n)
+	}
+	sb.WriteString(")\n}\n\n")
+	sb.WriteString("func vArgAt(a []int, i int) int {\n\tif i < len(a) {\n\t\treturn a[i]\n\t}\n\treturn 0\n}\n\n")
 	sb.WriteString("func vDispatch(name string, a []int) bool {\n\tswitch name {\n")
 	var names []string
 	for n, m := range p.Pkg.Members {
